@@ -22,8 +22,8 @@ def has_validation(call):
 class SeqProp:
     id = None
     stream_kinds = ("str", "Path")          # data kinds the generator uses
-    quick = (12, 30)                         # histories, length
-    thorough = (150, 40)
+    quick = (60, 30)                         # histories, length
+    thorough = (600, 40)
     projection_channels = {"class", "concrete", "locks"}
 
     def universe(self, rng, contents, store_alg):
@@ -156,8 +156,8 @@ class C04(SeqProp):
 
 class C05(SeqProp):
     id = "C05"
-    quick = (16, 30)
-    thorough = (250, 40)
+    quick = (80, 30)
+    thorough = (1000, 40)
     projection_channels = {"class", "cid", "size", "content", "path", "concrete", "locks"}
 
     def universe(self, rng, contents, store_alg):
@@ -231,8 +231,8 @@ class C17(SeqProp):
     id = "C17"
 
     def weights(self):
-        return {"store": 2, "store_data": 0.5, "tag": 1, "div": 1, "delete": 1.5, "retrieve": 2, "hex": 2,
-                "smeta": 1, "rmeta": 2, "dmeta": 1, "bad": 12}
+        return {"store": 3, "store_data": 0.5, "tag": 1, "div": 1, "delete": 3, "retrieve": 2, "hex": 2,
+                "smeta": 3, "rmeta": 2, "dmeta": 1, "bad": 10}
 
     def owned(self, call, s, ctx):
         if s["class"] in ARG_ERRORS or call.name in READ_ONLY:
@@ -245,4 +245,38 @@ class C17(SeqProp):
         return set()
 
 
-SEQ_PROPS = {c.id: c for c in (C01, C02, C03, C04, C05, C06, C11, C17)}
+ADVERSARIAL = [
+    "a/b", "../x", "..", ".", "/etc/passwd", "a/../../b", ".hidden", "-rf", "--", "*", "?", "[a-z]", "$(touch_x)",
+    "`id`", ";rm", "a;b", "a|b", "a&b", "a'b", 'a"b', "a\\b", "a\\", "%s%s", "{0}", "~", "~root", "C:\\x",
+    "\x00", "a\x00b", "\x01", "\x7f", "é", "e\u0301", "ß", "ẞ", "İ", "ı", "K", "\U0001F600", "\U00010000x",
+    "\ufeffbom", "\u200b", "\u202e", "pid", "pi", "id", "PID", "Pid", "pid.", ".pid", "pidpid", "pid/pid",
+    "x" * 5000, "y" * 4999 + "/", "a=b", "a:b", "#frag", "?q=1", "http://x/y?z#w", "_delete", "p_delete",
+]
+REJECTED_IDS = ["a b", "a\tb", "a\nb", "a\rb", "\x85x", "x\xa0", "\u1680", "a\u2028b", "a\u3000", "\x1c", " lead", "trail "]
+
+
+class C18(SeqProp):
+    id = "C18"
+    quick = (50, 30)
+    thorough = (500, 40)
+    projection_channels = {"class", "content", "path", "concrete", "locks"}
+
+    def universe(self, rng, contents, store_alg):
+        u = super().universe(rng, contents, store_alg)
+        base = rng.sample(ADVERSARIAL, 4)
+        # pairs related by prefix / suffix / case
+        root = rng.choice(base)
+        u.pids = base + [root + "x", "x" + root, root.upper(), root.lower(), rng.choice(REJECTED_IDS)]
+        u.toks = u.toks[:3]
+        u.formats = [None, u.ns] + rng.sample(ADVERSARIAL, 3) + [rng.choice(REJECTED_IDS), ""]
+        return u
+
+    def weights(self):
+        return {"store": 5, "store_data": 0.5, "tag": 2, "div": 0.5, "delete": 3, "retrieve": 2, "hex": 0.5,
+                "smeta": 4, "rmeta": 2, "dmeta": 2, "bad": 0.3}
+
+    def owned(self, call, s, ctx):
+        return {"class", "content", "abs.objs", "abs.bind", "abs.docs", "exact", "outside"}
+
+
+SEQ_PROPS = {c.id: c for c in (C01, C02, C03, C04, C05, C06, C11, C17, C18)}
